@@ -802,9 +802,10 @@ pub fn range_strategy() -> BoxedStrategy<RangeSel> {
 
 pub fn liquidity_strategy() -> BoxedStrategy<u128> {
     prop_oneof![
-        6 => (20u32..=72, any::<u128>()).prop_map(|(bits, r)| (r >> (128 - bits)) | (1u128 << (bits - 1))),
-        2 => gen::bits_u128(110),
-        1 => 1u128..1000,
+        12 => (20u32..=72, any::<u128>()).prop_map(|(bits, r)| (r >> (128 - bits)) | (1u128 << (bits - 1))),
+        4 => gen::bits_u128(110),
+        2 => 1u128..1000,
+        1 => gen::structured_u128(100),
     ]
     .boxed()
 }
@@ -822,9 +823,11 @@ pub fn limit_strategy() -> BoxedStrategy<LimitSel> {
 
 pub fn swap_amount_strategy() -> BoxedStrategy<u64> {
     prop_oneof![
-        6 => (1u32..=60, any::<u64>()).prop_map(|(bits, r)| (r >> (64 - bits)) | (1u64 << (bits - 1))),
-        1 => 0u64..100,
-        1 => gen::bits_u64(63),
+        12 => (1u32..=60, any::<u64>()).prop_map(|(bits, r)| (r >> (64 - bits)) | (1u64 << (bits - 1))),
+        2 => 0u64..100,
+        2 => gen::bits_u64(64),
+        1 => gen::structured_u128(64).prop_map(|v| v as u64),
+        1 => (0u64..3).prop_map(|d| u64::MAX - d),
     ]
     .boxed()
 }
